@@ -365,6 +365,12 @@ def _simulate(sc, chooser, faults, with_inject):
                             '{}: {}'.format(type(th.exc).__name__, th.exc)))
                     return
                 sim.count('refresh_thread_survived_fault')
+                # run the probe at a quiescent point of the refresh thread
+                for _ in range(200):
+                    if (th.state == 'blocked' and th.block_kind == 'sleep'
+                            and th.wake_time - sim.now > 1.0):
+                        break
+                    sim.sleep(0.25)
             net.plan = []
             obs['known'] = list(ls.get_light_names())
             run_script(sim, net, probe_script(pop, sc['sentinel'],
@@ -463,8 +469,9 @@ def execute(scenario, chooser):
         res['harness_error'] = 'script with injected statements rejected'
         return res
     mark_r, mark_f = ref['mark'], run['mark']
-    rec_ref = world.wire_records(ref['net'], mark_r)
-    rec_run = world.wire_records(net, mark_f)
+    from sim.bulbs import SCRIPT_TYPES
+    rec_ref = world.wire_records(ref['net'], mark_r, SCRIPT_TYPES)
+    rec_run = world.wire_records(net, mark_f, SCRIPT_TYPES)
     sent = sc['sentinel']
     tail = [r for r in rec_run[sent] if r[0] == 'LightSetColor']
     known = run.get('known')
